@@ -1533,7 +1533,24 @@ impl Engine for BevyEngine {
         gen::generate(rng, property, tier == Tier::Thorough)
     }
     fn execute(&self, scn: &BScn, property: &str) -> RunOutcome {
-        execute(scn, property)
+        // A panic anywhere else than inside `App::update` / an operation (those are caught where
+        // they happen) comes from evaluating a real timeline for the oracle - the twin of the
+        // animator's timeline at a position the animator itself evaluates. It is the library that
+        // panics; it is reported like any other panic of the library.
+        match catch(|| execute(scn, property)) {
+            Ok(out) => out,
+            Err(p) => {
+                let mut out = RunOutcome::default();
+                out.violation = Some(viol(
+                    property,
+                    &format!("panic@{}:{}", p.file, p.line),
+                    0,
+                    format!("evaluating the animator's timeline (twin) panicked: {}", p.describe()),
+                    "panic twin".into(),
+                ));
+                out
+            }
+        }
     }
     fn shrink_candidates(&self, scn: &BScn) -> Vec<BScn> {
         gen::shrink_candidates(scn)
